@@ -19,11 +19,21 @@ def run(ctx):
     t = threading.Thread(target=_nocluster, args=(ctx,))
     t.start()
     try:
-        cc.model(ctx, ['MC_cluster_repl2.cfg'] if th else [], {'MC_cluster_neg_pred.cfg': 'ReplicaOnlyWhenOptedIn', 'MC_cluster_neg_sel.cfg': 'OutOfRangeFallsBackToPrimary'})
+        negs = {'MC_cluster_neg_pred.cfg': 'ReplicaOnlyWhenOptedIn', 'MC_cluster_neg_sel.cfg': 'OutOfRangeFallsBackToPrimary',
+                # round 2: DoMultiStream that does not ask the predicate about commands without a key; a shard whose master is not
+                # online kept with a replica as its primary
+                'MC_cluster_neg_streamkeyless.cfg': 'ReplicaOnlyWhenOptedIn', 'MC_cluster_neg_promote.cfg': 'ReplicaOnlyWhenOptedIn'}
+        # which node of a shard is the primary is decided by the topology parser: CLUSTER SHARDS replies (masters that are fail /
+        # loading / "?" with online replicas, replicas listed first ...) -> real parser, compared with ClusterTopo.tla
+        cc.cases(ctx, 'ClusterTopo', ['Topo_shards_thorough.cfg'] if th else ['Topo_shards_quick.cfg'], 'parse')
+        # round 2: stream = DoStream / DoMultiStream and batches with commands that have no key; fail = a master reported as failed
+        # while its replicas are online (the slot has no owner until a master is online again)
+        gens = ['Gen_cluster_repl.cfg', 'Gen_cluster_stream.cfg', 'Gen_cluster_fail.cfg']
         if th:
-            cc.sim(ctx, ['Gen_cluster_repl.cfg'], 0, 250, modes='sendto,sendto,replicaonly,none', tracefiles=8)
+            cc.sim(ctx, gens, 0, 250, modes='sendto,sendto,replicaonly,none', tracefiles=8, mc=['MC_cluster_repl2.cfg'], negs=negs)
         else:
-            cc.sim(ctx, ['Gen_cluster_repl.cfg'], 110, 30, modes='sendto,sendto,replicaonly,none', tracefiles=4)
+            cc.sim(ctx, gens, {'Gen_cluster_repl.cfg': 80, 'Gen_cluster_stream.cfg': 0, 'Gen_cluster_fail.cfg': 40}, 30,
+                   modes='sendto,sendto,replicaonly,none', tracefiles=8, negs=negs)
     finally:
         t.join()
     ctx.assumptions = [a for a in ctx.assumptions if 'cluster part of C21 is checked by' not in a]
